@@ -8,6 +8,7 @@ import (
 	"time"
 
 	"github.com/jamespfennell/gtfs/extensions"
+	"github.com/jamespfennell/gtfs/internal/verifhook"
 	gtfsrt "github.com/jamespfennell/gtfs/proto"
 	"google.golang.org/protobuf/proto"
 )
@@ -284,6 +285,7 @@ func ParseRealtime(content []byte, opts *ParseRealtimeOptions) (*Realtime, error
 
 	shouldSkip := make([]bool, len(feedMessage.GetEntity()))
 	for i, entity := range feedMessage.Entity {
+		verifhook.Point("ParseRealtime:extension-pass")
 		if tripUpdate := entity.GetTripUpdate(); tripUpdate != nil {
 			r := opts.Extension.UpdateTrip(tripUpdate, feedMessage.GetHeader().GetTimestamp())
 			shouldSkip[i] = r.ShouldSkip
@@ -306,6 +308,7 @@ func ParseRealtime(content []byte, opts *ParseRealtimeOptions) (*Realtime, error
 	}
 	var noIDAssociations []noIDAssociation
 	for i, entity := range feedMessage.Entity {
+		verifhook.Point("ParseRealtime:entity")
 		if shouldSkip[i] {
 			continue
 		}
